@@ -265,7 +265,7 @@ func genCorruptArchive(t *rapid.T) BytesCase {
 		j := rapid.IntRange(0, len(ms)).Draw(t, "j")
 		decoy := ms[i]
 		base := rapid.SampledFrom([]string{"control", "data"}).Draw(t, "base")
-		decoy.Name = base + rapid.SampledFrom([]string{".tar", ".tar.gz", ".tar.Z", ".foo", "."}).Draw(t, "ext")
+		decoy.Name = base + rapid.SampledFrom([]string{".tar", ".tar.gz", ".tar.Z", ".foo", ".", ".old.tar", ".1.tar.gz", ".bak.tar", ".tar.tar"}).Draw(t, "ext")
 		if rapid.Bool().Draw(t, "evil") {
 			tarb, _ := buildTar([]TarFile{{Name: "./control", Type: "reg", Content: []byte("Package: evil\nVersion: 6.6.6\nArchitecture: all\n")}})
 			decoy.Data = tarb
@@ -280,6 +280,11 @@ func genCorruptArchive(t *rapid.T) BytesCase {
 		i := rapid.IntRange(0, len(ms)-1).Draw(t, "i")
 		col := arColumns[rapid.IntRange(0, len(arColumns)-1).Draw(t, "col")]
 		txt := rapid.SampledFrom(hostileFieldTexts).Draw(t, "txt")
+		if col.name == "name" {
+			// names other ar dialects give a meaning to: BSD "#1/<len>" (name stored in front of
+			// the data), GNU "/" (symbol table), "//" (name table), "/<offset>" (reference into it)
+			txt = rapid.SampledFrom([]string{"#1/20", "#1/5", "#1/1", "#1/1024", "#1/0", "#1/-4", "#1/99999", "/", "//", "/0", "/123", "__.SYMDEF", "#1/x", ""}).Draw(t, "hname")
+		}
 		if len(txt) > col.len {
 			txt = txt[:col.len]
 		}
